@@ -86,6 +86,8 @@ impl<'source> LexicalTokens<'source> {
 /*@end*/
 /*@fn lang/surface/src/textual/lexer.rs :: impl Iterator for LexicalTokens :: fn next
    assoc Item
+   closure 0: -> (t: LexicalToken)
+       ensures t.range.start == start && t.range.end == self.source_len && t.kind == LexicalTokenKind::Comment
    loop 0: invariant
        self.wf(),
        self.inner.remaining().len() <= old(self).inner.remaining().len(),
@@ -126,9 +128,13 @@ impl<'source> LexicalTokens<'source> {
         }),
         // [LT-NONE] None only if nothing in the rest of the input emits
         r is None ==> silent(old(self).comment_depth as int, old(self).inner.remaining()) == old(self).inner.remaining().len(),
-        // [LT-UNTERMINATED] at the end of input the recorded comment start is consumed (the token built from it goes through a
-        // closure passed to Option::map, whose result Verus does not see: its presence and range are NOT proved)
-        old(self).inner.remaining().len() == 0 ==> final(self).comment_start is None,
+        // [LT-UNTERMINATED] at the end of an input that is still inside a block comment, the unterminated comment is ONE token from its
+        // outermost `/-` to the end of the source, delivered exactly once (the recorded start is consumed); otherwise the stream ends
+        old(self).inner.remaining().len() == 0 ==> final(self).comment_start is None
+            && (match old(self).comment_start {
+                    Some(s) => r matches Some(t) && t.range.start == s && t.range.end == old(self).source_len && t.kind == LexicalTokenKind::Comment,
+                    None => r is None,
+                }),
         // [LT-SPAN] a token produced for a consumed item ends where that item ends; a non-comment token has exactly its range
         r is Some && final(self).inner.remaining().len() > 0 ==> ({
             let last = old(self).inner.remaining()[old(self).inner.remaining().len() - final(self).inner.remaining().len() - 1];
